@@ -22,6 +22,7 @@ type GenCfg struct {
 	Mutations     bool
 	Subscriptions bool // a Subscription root type (one or two fields, each owned by one service)
 	RootNode      bool // queries may select the Relay entry point node(id:) at the root
+	Skeleton      bool // more selections that hold nothing but object-valued fields at the inner levels
 	BigLists      bool
 	RichArgs      bool            // enum, list and input-object arguments
 	FragBase      int             // first number of generated fragment names (several operations in one document)
@@ -872,6 +873,10 @@ func (og *opgen) selset(tn string, depth int) []*Sel {
 	cands := append([]string{}, scalars...)
 	if depth < g.cfg.MaxDepth {
 		cands = append(cands, objs...)
+		if g.cfg.Skeleton && len(objs) > 0 && g.chance(0.6) {
+			// nothing of this object itself: after the helper fields are removed it is empty unless its children are not
+			cands = append([]string{}, objs...)
+		}
 	}
 	if g.chance(0.15) {
 		cands = append(cands, "__typename")
